@@ -1,4 +1,4 @@
-use std::{collections::HashMap, iter::Peekable, slice::Iter};
+use std::{collections::HashSet, iter::Peekable, slice::Iter};
 
 use crate::{
     ast::{DataType, DataTypeMember, Enum, Field, Struct, Variant},
@@ -70,8 +70,9 @@ impl<'a> From<&'a ChildParentData> for ChildRenderContext<'a> {
 }
 
 struct FieldContainer<'a> {
-    gr_idx: usize,
     path: String,
+    // whether `path` designates a nested struct (a child path), as opposed to a plain member of the struct being built
+    nested: bool,
     field_data: FieldData<'a>
 }
 
@@ -265,17 +266,12 @@ fn struct_init_block<'a>(input: &'a Struct, ctx: &'a ImplContext) -> TokenStream
         return TokenStream::new();
     }
 
-    let mut group_paths = HashMap::<String, usize>::new();
-    group_paths.insert("".into(), 0);
+    let mut group_paths = HashSet::<String>::new();
+    group_paths.insert("".into());
 
-    let mut make_tuple = |path: String, field_data: FieldData<'a>| {
-        if group_paths.contains_key(&path) {
-            let gr_idx = *group_paths.get(&path).unwrap();
-            (FieldContainer { gr_idx, path, field_data }, false)
-        } else {
-            group_paths.insert(path.clone(), group_paths.len());
-            (FieldContainer { gr_idx: group_paths.len() - 1, path, field_data}, true)
-        }
+    let mut make_tuple = |path: String, nested: bool, field_data: FieldData<'a>| {
+        let new_group = nested && group_paths.insert(path.clone());
+        (FieldContainer { path, nested, field_data }, new_group)
     };
 
     let mut fields: Vec<FieldContainer> = vec![];
@@ -283,12 +279,12 @@ fn struct_init_block<'a>(input: &'a Struct, ctx: &'a ImplContext) -> TokenStream
     fields.extend(input.fields.iter()
         .flat_map(|x| {
             let fields: Vec<FieldContainer> = if let Some(p) = x.attrs.parameterized_parent_attr(&ctx.struct_attr.ty).map(|a| a.child_fields.as_ref().unwrap()) {
-                p.iter().map(|p| make_tuple(format!("{}{}", &x.member_str, &p.sub_path_tokens.to_string().replace(' ', "")), FieldData::ParentChildField(x, p)).0).collect()
+                p.iter().map(|p| make_tuple(format!("{}{}", &x.member_str, &p.sub_path_tokens.to_string().replace(' ', "")), true, FieldData::ParentChildField(x, p)).0).collect()
             } else {
                 // Only Into kinds build the counterpart's nested structs, so only they group members by child path.
                 // From kinds fill this struct's own members, which must stay in declaration order (tuple structs are positional).
-                let path = if ctx.kind.is_from() { &x.member_str } else { x.attrs.child(&ctx.struct_attr.ty).map(|x| x.get_child_path_str(None)).unwrap_or(&x.member_str) };
-                vec![make_tuple(path.to_string(), FieldData::Field(x)).0]
+                let child_path = if ctx.kind.is_from() { None } else { x.attrs.child(&ctx.struct_attr.ty).map(|x| x.get_child_path_str(None)) };
+                vec![make_tuple(child_path.unwrap_or(&x.member_str).to_string(), child_path.is_some(), FieldData::Field(x)).0]
             };
             fields.into_iter()
         }));
@@ -296,11 +292,26 @@ fn struct_init_block<'a>(input: &'a Struct, ctx: &'a ImplContext) -> TokenStream
     fields.extend(input.attrs.ghosts_attr(&ctx.struct_attr.ty, &ctx.kind).into_iter()
         .flat_map(|x| &x.ghost_data)
         .filter_map(|x| {
-            let res = make_tuple(x.get_child_path_str(None).into(), FieldData::GhostData(x));
+            let res = make_tuple(x.get_child_path_str(None).into(), true, FieldData::GhostData(x));
             res.1.then_some(res.0)
         }));
 
-    fields.sort_by(|a, b| a.gr_idx.cmp(&b.gr_idx));
+    // A nested struct is built once, so its members (and the members of the structs nested in it) have to be contiguous.
+    // Within one struct, direct members and nested structs keep the order in which they are first mentioned.
+    let keys: Vec<Vec<usize>> = fields.iter().enumerate().map(|(idx, f)| {
+        let mut key: Vec<usize> = if f.nested {
+            f.path.match_indices('.').map(|(pos, _)| &f.path[..pos]).chain(std::iter::once(f.path.as_str()))
+                .map(|prefix| fields.iter().position(|x| x.nested && (x.path == prefix || x.path.starts_with(&format!("{prefix}.")))).unwrap_or(idx))
+                .collect()
+        } else {
+            vec![]
+        };
+        key.push(idx);
+        key
+    }).collect();
+    let mut keyed_fields: Vec<(Vec<usize>, FieldContainer)> = keys.into_iter().zip(fields).collect();
+    keyed_fields.sort_by(|a, b| a.0.cmp(&b.0));
+    let fields: Vec<FieldContainer> = keyed_fields.into_iter().map(|x| x.1).collect();
 
     struct_init_block_inner(&mut fields.iter().peekable(), input.named_fields, ctx, None)
 }
@@ -318,10 +329,10 @@ fn struct_init_block_inner(
     let mut fragments: Vec<TokenStream> = vec![];
     let mut idx: usize = 0;
 
-    while let Some(FieldContainer { path, field_data, .. }) = members.peek() {
+    while let Some(FieldContainer { path, nested, field_data }) = members.peek() {
         if let Some(field_ctx) = field_ctx {
             let p = field_ctx.0.get_child_path_str(Some(field_ctx.2));
-            if path != p && !path.starts_with(format!("{p}.").as_str()) {
+            if !nested || (path != p && !path.starts_with(format!("{p}.").as_str())) {
                 break;
             }
         }
